@@ -60,7 +60,13 @@ func registerTime(P *Program) {
 		if t.IsConst() {
 			return in.ts.BV(64, uint64(time.Unix(0, t.i).Unix()))
 		}
-		return in.ts.App("time.unixsec", BVSort(64), t)
+		return in.ts.Int2Bv(64, in.ts.IDiv(t, in.ts.Int(1000000000)))
+	})
+	r("(time.Time).UnixMilli", func(in *Interp, caller *frame, fn *ssa.Function, args []Value) Value {
+		return in.ts.Int2Bv(64, in.ts.IDiv(tv(args[0]), in.ts.Int(1000000)))
+	})
+	r("time.Until", func(in *Interp, caller *frame, fn *ssa.Function, args []Value) Value {
+		return in.ts.Int2Bv(64, in.ts.ISub(tv(args[0]), in.now()))
 	})
 	r("(time.Time).UTC", func(in *Interp, caller *frame, fn *ssa.Function, args []Value) Value { return args[0] })
 	r("(time.Time).Local", func(in *Interp, caller *frame, fn *ssa.Function, args []Value) Value { return args[0] })
